@@ -235,16 +235,24 @@ class PtnFilterChord(PtnFilter):
 
         Option = PtnFilterChord.Option
         if options & Option.AND_HIGHER:
-            sizes_new = np.asarray(
-                np.meshgrid(*[list(range(i, keys + 1)) for i in np.min(sizes_, axis=0)])
-            ).T.reshape(-1, chunk_size)
-            sizes_ = np.concatenate([sizes_, sizes_new], axis=0)
+            # Higher than each given sequence (not than their element-wise minimum)
+            sizes_new = [
+                np.asarray(
+                    np.meshgrid(*[list(range(i, keys + 1)) for i in sizes])
+                ).T.reshape(-1, chunk_size)
+                for sizes in sizes_
+            ]
+            sizes_ = np.concatenate([sizes_, *sizes_new], axis=0)
 
         if options & Option.AND_LOWER:
-            sizes_new = np.asarray(
-                np.meshgrid(*[list(range(1, i + 1)) for i in np.max(sizes_, axis=0)])
-            ).T.reshape(-1, chunk_size)
-            sizes_ = np.concatenate([sizes_, sizes_new], axis=0)
+            # Lower than each given sequence (not than their element-wise maximum)
+            sizes_new = [
+                np.asarray(
+                    np.meshgrid(*[list(range(1, i + 1)) for i in sizes])
+                ).T.reshape(-1, chunk_size)
+                for sizes in sizes_
+            ]
+            sizes_ = np.concatenate([sizes_, *sizes_new], axis=0)
 
         if options & Option.ANY_ORDER:
             sizes_ = np.asarray([list(permutations(i)) for i in sizes_]).reshape(
